@@ -85,6 +85,7 @@ def tlc(module, cfg_text, rundir, name=None, workers=NCPU, env=None, timeout=300
     """Run TLC on /verif/spec/<module>.tla with the given cfg text.  Returns a dict with stdout,
     generated/distinct counts, error flag, violated invariant names."""
     name = name or module
+    mark(f"tlc {name} start")
     rundir = Path(rundir)
     cfg = rundir / f"{name}.cfg"
     cfg.write_text(cfg_text)
@@ -190,6 +191,7 @@ def judge(module, traces, rundir, consts="", shard=2000, jobs=NCPU, timeout=3000
     dicts, each with an integer 'tid').  Returns dict(V=[...], M=[...], N={clause: count}, judged=n).
     The trace module must define Spec, Post (POSTCONDITION printing <<"JUDGED", n>>) and read
     IOEnv.TRACE_FILE.  One JVM per shard, one worker each, so PrintT lines do not interleave."""
+    mark(f"judge {label or module} x{len(traces)}")
     rundir = Path(rundir)
     label = label or module
     shards = [traces[i:i + shard] for i in range(0, len(traces), shard)] or []
@@ -302,9 +304,19 @@ def _pool_call(chunk):
     return [_POOL_FN(x) for x in chunk]
 
 
+_T0 = time.time()
+
+
+def mark(label):
+    """progress line on stderr when VERIF_TIMING is set (for tuning plan sizes; no effect on verdicts)"""
+    if os.environ.get("VERIF_TIMING"):
+        print(f"[{time.time() - _T0:7.1f}s] {label}", file=sys.stderr, flush=True)
+
+
 def pmap(fn_module, fn_name, items, jobs=NCPU, chunk=200):
     """Map a top-level function (module, name) over items in worker processes; keeps order."""
     items = list(items)
+    mark(f"pmap {fn_module}.{fn_name} x{len(items)}")
     if not items:
         return []
     chunks = [items[i:i + chunk] for i in range(0, len(items), chunk)]
